@@ -65,9 +65,14 @@ func (o *CandidateNode) UnmarshalJSON(data []byte) error {
 				break
 			}
 
+			keyValue, isString := tok.(string)
+			if !isString {
+				return fmt.Errorf("invalid JSON: expected a string as object key but got %v", tok)
+			}
+
 			childKey := o.CreateChild()
 			childKey.IsMapKey = true
-			childKey.Value = tok.(string)
+			childKey.Value = keyValue
 			childKey.Kind = ScalarNode
 			childKey.Tag = "!!str"
 
